@@ -165,7 +165,7 @@ func (w *World) Teardown() {
 	for _, o := range w.Objs {
 		w.closePeer(o)
 		for _, fd := range o.Backlog {
-			syscall.Close(fd)
+			rawpeer.Reset(fd)
 		}
 		o.Backlog = nil
 		if !o.Closed && !o.Closing {
@@ -179,6 +179,11 @@ func (w *World) Teardown() {
 
 func (w *World) rawClose(o *Obj) {
 	o.Closing = true
+	// TCP: close with an RST so that neither end lingers in TIME_WAIT - thousands of scripts per second would
+	// otherwise exhaust the ephemeral port range (the library only sees its own close(2), as before)
+	if o.Kind == KConnDialed || o.Kind == KConnAccepted || o.Kind == KAdapter {
+		_ = syscall.SetsockoptLinger(o.Raw, syscall.SOL_SOCKET, syscall.SO_LINGER, &syscall.Linger{Onoff: 1, Linger: 0})
+	}
 	switch {
 	case o.FD != nil:
 		_ = o.FD.Close()
@@ -192,7 +197,11 @@ func (w *World) rawClose(o *Obj) {
 
 func (w *World) closePeer(o *Obj) {
 	if o.Peer >= 0 {
-		syscall.Close(o.Peer)
+		if o.Kind == KConnDialed || o.Kind == KConnAccepted || o.Kind == KAdapter {
+			rawpeer.Reset(o.Peer)
+		} else {
+			syscall.Close(o.Peer)
+		}
 		o.Peer = -1
 	}
 }
